@@ -698,19 +698,31 @@ theorem contractionFuseSameRed_sound_op (red : String) (h : TotalAssoc red) (vbi
     exact ⟨⟨hn'.1, hn'.2.2⟩, hn'.2.1⟩
   · cases hr
 
-/-- Non-vacuity: `and` on truth values is total and associative. -/
-def totalAssocAnd : TotalAssoc "and" where
-  f a b := boolXR (a.truthy && b.truthy)
-  tot _ _ := rfl
-  assoc x y z := by
-    have ht : ∀ b : Bool, (boolXR b).truthy = b := by intro b; cases b <;> decide
-    simp only [ht, Bool.and_assoc]
+theorem xr_max_assoc (x y z : XR) : XR.max (XR.max x y) z = XR.max x (XR.max y z) := by
+  cases x <;> cases y <;> cases z <;> simp [XR.max, XR.le] <;> grind
 
-def totalAssocOr : TotalAssoc "or" where
-  f a b := boolXR (a.truthy || b.truthy)
-  tot _ _ := rfl
-  assoc x y z := by
-    have ht : ∀ b : Bool, (boolXR b).truthy = b := by intro b; cases b <;> decide
-    simp only [ht, Bool.or_assoc]
+theorem xr_min_assoc (x y z : XR) : XR.min (XR.min x y) z = XR.min x (XR.min y z) := by
+  cases x <;> cases y <;> cases z <;> simp [XR.min, XR.le] <;> grind
+
+theorem xr_add_assoc (x y z : XR) : XR.add (XR.add x y) z = XR.add x (XR.add y z) := by
+  cases x <;> cases y <;> cases z <;> simp [XR.add] <;> grind
+
+/-- The hypothesis of `contractionFuseSameRed_sound_op` holds for max, min and add on ALL of XR (numpy
+    conventions for ±∞ and NaN included).  (`and`/`or`/`xor` are bitwise and defined on integer values only, so
+    they are not total on XR; `mul` is not proved here.) -/
+def totalAssocMax : TotalAssoc "max" := ⟨XR.max, fun _ _ => rfl, xr_max_assoc⟩
+def totalAssocMin : TotalAssoc "min" := ⟨XR.min, fun _ _ => rfl, xr_min_assoc⟩
+def totalAssocAdd : TotalAssoc "add" := ⟨XR.add, fun _ _ => rfl, xr_add_assoc⟩
+
+/-- Fusing nested `max` / `min` / `add` reductions over distinct binders is sound, unconditionally. -/
+theorem contractionFuseSameRed_sound_max_min_add (red : String) (hred : red = "max" ∨ red = "min" ∨ red = "add")
+    (vbin : String) (vars vvars : List (Name × Dom)) (vts : List Term) (t' : Term)
+    (hr : contractionFuseSameRed (Term.contraction red "null" vars [Term.contraction red vbin vvars vts]) = some t') :
+    Equiv t' (Term.contraction red "null" vars [Term.contraction red vbin vvars vts]) ∧
+      t'.fv ⊆ (Term.contraction red "null" vars [Term.contraction red vbin vvars vts]).fv := by
+  rcases hred with rfl | rfl | rfl
+  · exact contractionFuseSameRed_sound_op "max" totalAssocMax vbin vars vvars vts t' hr
+  · exact contractionFuseSameRed_sound_op "min" totalAssocMin vbin vars vvars vts t' hr
+  · exact contractionFuseSameRed_sound_op "add" totalAssocAdd vbin vars vvars vts t' hr
 
 end FV.Props.C02
